@@ -196,7 +196,7 @@ class stDAG(AbstractSourceSinkGraph):
             cost = 1 if u == self.source else 0
 
             edge_demand = int(u != self.source and v != self.sink)
-            if weight_function:
+            if weight_function is not None:
                 edge_demand = weight_function.get((u, v), 0)
 
             demand[(u, v)] = edge_demand
@@ -286,7 +286,7 @@ class stDAG(AbstractSourceSinkGraph):
             visited = {node: 0 for node in self.nodes()}
             DFS_find_reachable_from_source(self.source, visited)
             DFS_find_saturating(self.source, visited)
-            if weight_function:
+            if weight_function is not None:
                 assert minFlowCost == sum(
                     map(lambda edge: weight_function[edge], antichain)
                 )
